@@ -17,6 +17,7 @@ func init() {
 		ID:   "C03",
 		Rule: "one case = one wire image generated from the RFC 3550/8285 grammar by the reference builder (CSRC count, block kind, item sequence of pad runs / elements / id-15 terminator, extra pad word, payload, RTP padding with filler), decoded by the library and checked against the generating values, re-encoded, and given to the standalone block views; plus every single-byte mutation of images that the library accepts; non-trivial = image has an extension block",
 		Assumptions: []string{
+			"a well-formed image for every value of the first two header octets (65536 images)",
 			"items per RFC 8285 block: up to 3 in full product with CSRC/payload/padding, up to 4 (quick) / 5 (thorough) with reduced other dimensions; one-byte ids {1,2,14} lengths {1,2,3,16}; two-byte ids {1,15,255} lengths {0,1,2,255}; pad runs 1-3; duplicate ids and id-0 bytes with a non-zero length nibble are not generated (RFC leaves the receiver's behaviour open)",
 			"an id-15 terminator followed by ignored bytes is part of the grammar (RFC 8285 4.2 tells the receiver how to treat it); the pinned payload-start behaviour of the library after a terminator is a listed known finding with an exact defect model",
 			"a further scenario: legacy blocks of 16383-65535 words, two-byte blocks of 64 / 255 elements of 254-255 bytes, one-byte blocks of 14 elements with pad runs before every element and up to 40 extra pad words, each followed by all-zero payloads of 0/8/9/24/1300 bytes (content indistinguishable from extension padding) or patterned payloads",
@@ -27,6 +28,7 @@ func init() {
 			{Name: "grammar-4-items", Tiers: "qt", ShardDepth: 4, Run: func(c *mc.Ctx) { c03Grammar(c, 4, false) }},
 			{Name: "grammar-5-items", Tiers: "t", ShardDepth: 4, Run: func(c *mc.Ctx) { c03Grammar(c, 5, false) }},
 			{Name: "huge-blocks-and-zero-payloads", Tiers: "qt", ShardDepth: 3, Run: c03Huge},
+			{Name: "every-first-two-octets", Tiers: "qt", ShardDepth: 3, Run: c03FirstOctets},
 			{Name: "accepted-mutations", Tiers: "qt", ShardDepth: 4, Run: c03Mutations},
 		},
 	})
@@ -501,4 +503,15 @@ func c03Mutations(c *mc.Ctx) {
 		c.NonTrivial()
 	}
 	c.Outcome(fmt.Sprintf("accepted>0=%v", accepted > 0))
+}
+
+// c03FirstOctets: a well-formed image for every value of the first two header octets (version,
+// P, X, CC, marker, payload type).
+func c03FirstOctets(c *mc.Ctx) {
+	b0 := c.Pick(256)
+	for b1 := 0; b1 < 256; b1++ {
+		_, w := c01FirstWire(b0, b1)
+		c03Check(c, w.w)
+	}
+	c.Cases(255)
 }
